@@ -161,6 +161,10 @@ def draw_scenario(rng, prop, index, tier):
 
 def declared_outputs(sc):
     out = {sc["out"]}
+    if sc.get("prior") == "symlink" and sc["threads"] > 1 and sc["mode"] != "--no-update-in-place":
+        # In-place modes open the path, i.e. write through the link (as GNU ld does); every other
+        # mode replaces the link itself and must leave its target alone.
+        out.add(sc["out"] + ".real")
     if sc["depfile"]:
         out.add("deps.d")
     if sc["layout"]:
@@ -190,6 +194,18 @@ def prepare_dir(sc, d, rng, inputs, extra, ref_out):
             f.write(b"previous, longer file at the output path\n" * 2000)
         os.chmod(out, 0o755)
         os.utime(out, (past, past))
+    elif sc["prior"] == "symlink":
+        # The output path is a symbolic link to another file in the directory (libfoo.so ->
+        # libfoo.so.real, "the previous release").
+        real = out + ".real"
+        if ref_out and rng.random() < 0.5:
+            shutil.copyfile(ref_out, real)
+        else:
+            with open(real, "wb") as f:
+                f.write(b"previous release - the link target\n" * rng.randint(1, 300))
+        os.chmod(real, 0o755)
+        os.utime(real, (past, past))
+        os.symlink(os.path.basename(real), out)
     elif sc["prior"] == "busy":
         shutil.copyfile("/bin/sleep", out)
         os.chmod(out, 0o755)
@@ -351,6 +367,10 @@ def run_scenario(sc, seed, index, wl, keep=False):
         # ---- C17 ----
         if r.status == 0 and sc["kind"] == "ok":
             a = after.get(out)
+            if a is not None and a[0] != "f":
+                a = None if not os.path.exists(os.path.join(d, out)) else \
+                    ("f", os.stat(os.path.join(d, out)).st_mode & 0o7777, 0, 0, 0,
+                     hashlib.sha256(open(os.path.join(d, out), "rb").read()).hexdigest()[:16])
             if a is None:
                 viol("C17", "status0-no-output", _c17_sig(sc, res, "no-output"),
                      "exit status 0 but no output file")
@@ -544,7 +564,7 @@ def run_job(job):
     else:  # C19
         for _ in range(job["schedules"]):
             sc = dict(base, strategy=rng.choice(STRATEGIES), pseed=rng.getrandbits(48),
-                      prior=rng.choice(["absent", "good", "unrelated", "busy", "good"]),
+                      prior=rng.choice(["absent", "good", "unrelated", "busy", "good", "symlink"]),
                       mode=rng.choice([None, None, "--update-in-place", "--no-update-in-place"]),
                       mmap=rng.choice([None, None, "--no-mmap-output-file"]),
                       threads=rng.choice([1, 2, 2, 4]), fork=rng.random() < 0.5,
